@@ -397,8 +397,14 @@ func (w *Reconciler) syncCreateTasks(
 		return rj, tasks, errors.Wrapf(err, "cannot compute completion status")
 	}
 
-	// If already complete, don't need to create any more tasks.
+	// If already complete, don't need to create any more tasks. As above, tasks that
+	// were created without being recorded will not be adopted by retrying their
+	// creation anymore, so adopt them here to have them stopped with the others.
 	if completion.Complete {
+		tasks, err := w.adoptUnrecordedTasks(rj, tasks)
+		if err != nil {
+			return rj, tasks, err
+		}
 		return rj, tasks, nil
 	}
 
